@@ -11,6 +11,7 @@ from __future__ import annotations
 import hashlib
 import itertools
 import math
+import os
 from fractions import Fraction
 
 import jax
@@ -20,7 +21,8 @@ import z3
 from jax import lax
 from jax.extend import core as jex_core  # noqa: F401
 
-REPO_SRC = "/repo/src/genjax"
+REPO_ROOT = os.environ.get("VERIF_REPO_SRC", "/repo/src")  # seeded-change evaluation points this at a scratch worktree
+REPO_SRC = REPO_ROOT + "/genjax"
 
 
 class Unsupported(Exception):
@@ -43,6 +45,7 @@ _I = z3.IntSort()
 _B = z3.BoolSort()
 
 _UFS: dict = {}
+_STRUCT_CACHE: dict = {}  # (primitive, params, input shapes) -> position arrays of a structural primitive
 
 
 def uf(name, *sorts):
@@ -195,6 +198,7 @@ class Ops:
         self.mul_mode = mul_mode
         self.side = []  # side axioms (draw ranges etc.)
         self._comm = set()
+        self._cite = {}
 
     # ---- boolean
     def not_(self, a):
@@ -273,10 +277,14 @@ class Ops:
         """t = If(c, x, y) whose leaves (recursively) are numerals."""
         if not (is_sym(t) and z3.is_app_of(t, z3.Z3_OP_ITE)):
             return False
-        x, y = t.arg(1), t.arg(2)
-        okx = _is_numeral(x) or self._const_ite(x)
-        oky = _is_numeral(y) or self._const_ite(y)
-        return okx and oky
+        k = t.get_id()
+        r = self._cite.get(k)
+        if r is None:
+            x, y = t.arg(1), t.arg(2)
+            r = (_is_numeral(x) or self._const_ite(x)) and (_is_numeral(y) or self._const_ite(y))
+            self._cite[k] = (r, t)  # keep t alive so the id is not reused
+            return r
+        return r[0]
 
     def mul(self, a, b, kind):
         if isinstance(a, SpecialIte) or isinstance(b, SpecialIte):
@@ -484,6 +492,13 @@ class SpecialIte:
 
     def __init__(self, c, a, b):
         self.c, self.a, self.b = c, a, b
+        self.n = 1 + getattr(a, "n", 0) + getattr(b, "n", 0)
+
+    def flatten(self, kind="f"):
+        """Give up exact +-inf/nan tracking: distinguished real constants (see zreal); keeps terms polynomial in size."""
+        fa = self.a.flatten(kind) if isinstance(self.a, SpecialIte) else self.a
+        fb = self.b.flatten(kind) if isinstance(self.b, SpecialIte) else self.b
+        return z3.If(self.c, zterm(fa, kind), zterm(fb, kind))
 
     @staticmethod
     def lift1(ops, f, x):
@@ -505,10 +520,16 @@ def _l2(ops, f, x, y, boolean):
     return f(x, y)
 
 
+SPECIAL_BUDGET = 24
+
+
 def _mk_special(ops, c, a, b, boolean=False):
     if boolean:
         return ops.ite(c, a, b, "b")
-    return ops.ite(c, a, b, "f")
+    r = ops.ite(c, a, b, "f")
+    if isinstance(r, SpecialIte) and r.n > SPECIAL_BUDGET:
+        return r.flatten("f")
+    return r
 
 
 # --------------------------------------------------------------------------
@@ -609,7 +630,7 @@ class Interp:
             for fr in tb.frames:
                 fn = fr.file_name
                 if fn.startswith(REPO_SRC):
-                    self.functions.add(fn[len("/repo/src/"):] + ":" + fr.function_name)
+                    self.functions.add(fn[len(REPO_ROOT) + 1:] + ":" + fr.function_name)
         except Exception:
             pass
 
@@ -688,7 +709,13 @@ class Interp:
         flat = []
         for a, v in zip(ins, eqn.invars):
             k = kind_of(v.aval.dtype)
-            flat += [zterm(x, k) for x in a.reshape(-1)]
+            for x in a.reshape(-1):
+                if isinstance(x, SpecialIte):
+                    x = x.flatten(k)
+                try:
+                    flat.append(zterm(x, k))
+                except z3.Z3Exception as e:
+                    raise Unsupported(f"generic_uf argument {x!r} of kind {k}: {e}")
         if all(_is_ground_const(t) for t in flat) and not tag and not any(is_key_dtype(v.aval.dtype) for v in eqn.invars):
             return self.concrete_bind(eqn, ins)
         sorts = [t.sort() for t in flat]
@@ -728,13 +755,16 @@ class Interp:
             pool.append(a.reshape(-1))
             offs += n
         pool = np.concatenate(pool) if pool else np.empty(0, dtype=object)
-        with jax.ensure_compile_time_eval():
-            res = eqn.primitive.bind(*pos_args, **eqn.params)
-        if not eqn.primitive.multiple_results:
-            res = [res]
+        ck = (eqn.primitive.name, repr(sorted((k, str(v)) for k, v in eqn.params.items())), tuple(a.shape for a in ins))
+        res = _STRUCT_CACHE.get(ck)
+        if res is None:
+            with jax.ensure_compile_time_eval():
+                res = eqn.primitive.bind(*pos_args, **eqn.params)
+            if not eqn.primitive.multiple_results:
+                res = [res]
+            res = _STRUCT_CACHE[ck] = [np.asarray(r) for r in res]
         outs = []
         for r in res:
-            r = np.asarray(r)
             o = obj(r.shape)
             if r.shape == ():
                 o[()] = pool[int(r)]
@@ -1359,8 +1389,52 @@ class Interp:
                 result = [ew(lambda a, b, kk=kk: self.ops.ite(c, a, b, kk), v, r) for v, r, kk in zip(vals, result, kinds)]
         return result
 
+    def _library_sampler_loop(self, eqn):
+        """A scan/while that consumes PRNG keys and was written inside tensorflow_probability (its own
+        rejection / inversion samplers, e.g. a 200-step scan in Poisson): part of the environment, not of GenJAX."""
+        if self.concrete_rng:
+            return False
+        return self._from_tfp(eqn) and _consumes_keys(eqn)
+
+    def _from_tfp(self, eqn):
+        """Was this loop written inside a library (tensorflow_probability excludes its frames from JAX tracebacks)?
+        The innermost visible non-jax frame of a loop GenJAX or the harness wrote itself is the very line that
+        calls the loop constructor (scan / while_loop / fori_loop); otherwise the loop lives in library code that
+        this frame merely called (log_prob / sample of a TFP distribution)."""
+        import linecache
+        import re
+
+        try:
+            frames = eqn.source_info.traceback.frames
+        except Exception:
+            return False
+        for fr in frames:
+            fn = fr.file_name
+            if "/jax/" in fn or "/jaxlib/" in fn:
+                continue
+            if "tensorflow_probability/python" in fn or "tensorflow_probability/substrates" in fn:
+                return True
+            for ln in range(fr.line_num, max(fr.line_num - 12, 0), -1):
+                if re.search(r"\b(scan|while_loop|fori_loop|map)\s*\(", linecache.getline(fn, ln)):
+                    return False
+            return True
+        return False
+
+    def _opaque_loop(self, eqn, ins):
+        p = eqn.params
+        body = p.get("jaxpr") or p.get("body_jaxpr")
+        tag = "tfp_sampler_loop_" + hashlib.sha1((str(p.get("cond_jaxpr", "")) + str(body)).encode()).hexdigest()[:8]
+        outs = self.generic_uf(eqn, ins, tag=tag)
+        for a, v in zip(ins, eqn.invars):
+            if is_key_dtype(v.aval.dtype):
+                for kk in a.reshape(-1):
+                    self.draws.append(DrawSite(tag, kk, 0, None, self._pc()))
+        return outs
+
     def p_scan(self, eqn, ins):
         p = eqn.params
+        if self._library_sampler_loop(eqn) or (p["length"] > 16 and self._from_tfp(eqn) and not self.concrete_rng):
+            return self._opaque_loop(eqn, ins)
         cj, length, rev = p["jaxpr"], p["length"], p["reverse"]
         nc, ncar = p["num_consts"], p["num_carry"]
         consts, carry, xs = ins[:nc], list(ins[nc:nc + ncar]), ins[nc + ncar:]
@@ -1384,6 +1458,8 @@ class Interp:
 
     def p_while(self, eqn, ins):
         p = eqn.params
+        if self._library_sampler_loop(eqn):
+            return self._opaque_loop(eqn, ins)
         cn, bn = p["cond_nconsts"], p["body_nconsts"]
         cconsts, bconsts, state = ins[:cn], ins[cn:cn + bn], list(ins[cn + bn:])
         kinds = [kind_of(v.aval.dtype) for v in eqn.outvars]
@@ -1400,8 +1476,19 @@ class Interp:
                 raise Unsupported("while: more than 64 concrete iterations")
             state = self.eval_closed(p["body_jaxpr"], bconsts + state)
         # phase 2: symbolic condition, bounded unrolling with unwinding assertion
+        if self._from_tfp(eqn) and not self.concrete_rng:
+            # numeric kernel inside tensorflow_probability (Lambert W / Bessel iterations, quadrature): like lgamma,
+            # an uninterpreted function of its inputs named by its code (same code on both sides => same symbol)
+            return self._opaque_loop(eqn, ins)
         if any(is_key_dtype(v.aval.dtype) for v in eqn.invars):
-            raise Unsupported("while loop carrying PRNG keys with a symbolic condition (rejection sampler)")
+            # rejection sampler: an uninterpreted function of (key, parameters) named by the loop's code
+            tag = "rejection_while_" + hashlib.sha1((str(p["cond_jaxpr"]) + str(p["body_jaxpr"])).encode()).hexdigest()[:8]
+            outs = self.generic_uf(eqn, ins[:cn + bn] + state, tag=tag)
+            for a, v in zip(state, eqn.invars[cn + bn:]):
+                if is_key_dtype(v.aval.dtype):
+                    for kk in a.reshape(-1):
+                        self.draws.append(DrawSite(tag, kk, 0, None, self._pc()))
+            return outs
         guards = []
         for _ in range(self.while_bound):
             c = lower(self.eval_closed(p["cond_jaxpr"], cconsts + state)[0][()])
@@ -1497,6 +1584,28 @@ class Interp:
                 out[idx + sub] = f(k, z3.IntVal(j))
             self.draws.append(DrawSite(kind, k, int(np.prod(shape)) if shape else 1, params, self._pc()))
         return out
+
+
+def _sub_jaxprs(eqn):
+    for v in eqn.params.values():
+        if hasattr(v, "jaxpr"):
+            yield v.jaxpr
+        elif hasattr(v, "eqns"):
+            yield v
+        elif isinstance(v, (list, tuple)):
+            for b in v:
+                if hasattr(b, "jaxpr"):
+                    yield b.jaxpr
+
+
+def _consumes_keys(eqn):
+    if any(is_key_dtype(v.aval.dtype) for v in eqn.invars):
+        return True
+    for sj in _sub_jaxprs(eqn):
+        for e in sj.eqns:
+            if e.primitive.name.startswith("random_") or _consumes_keys(e):
+                return True
+    return False
 
 
 def _fill_value(kind):
